@@ -405,7 +405,7 @@ func checkC01(c *h.Check) {
 	c.Coverage["rejected"] = rej
 	c.Coverage["compiled_with_wire_gen"] = comp
 	c.Coverage["rule"] = fmt.Sprintf("%d result type kinds (every basic kind, named and unnamed composites, aliases, generic instances incl. with lib type arguments, types of another package in value/pointer/slice/map-key/func positions, unsafe.Pointer, error) x provider shape (4) x injector shape (>= provider's needs) x %d parameter forms (none, named, blank, unnamed, variadic named/blank, lib-typed variadic, parameters named err/cleanup) x provider in the injector's package or another one; accessibility family: sets declared in another package that list an unexported provider, an unexported struct type, \"*\" or a name over unexported fields, FieldsOf an unexported field, a binding to an unexported interface; layout family: import needed only by a parameter type / zero value / value expression, same-named packages, three injectors in two files with doc comments, unnamed variadic parameters; imports under a user-chosen alias used only by a value expression or only by a copied declaration. Oracle: whenever wire reports success, wire_gen.go is written and the package compiles under the default tags together with a typed function-variable assignment per injector (same name, parameter types incl. variadic, result types). (Every other property's accepted programs are compiled too; a failure there is reported under that property.) Distinct = distinct rendered source.", len(c01Kinds), len(c01Params))
-	if len(cases) > 0 {
+	if len(cases) > 0 && len(results) == len(cases) {
 		i := len(cases) / 2
 		c.Samples = append(c.Samples, map[string]interface{}{"case": cases[i].ID, "wire.go": cases[i].Files["wire.go"], "driver.go": cases[i].Files["driver.go"], "wire_gen.go": results[i].GenSrc[""]})
 	}
